@@ -1499,3 +1499,73 @@ def pan8(ctx):
                              % (nm, ([x["loc"] for x in b.blocks[bad[0]]["s"] if x.get("loc")] + [b.blocks[bad[0]]["t"].get("loc") or "?:?"])[-2 if len([x for x in b.blocks[bad[0]]["s"] if x.get("loc")]) else -1].split(":")[1], cp.rsplit("::", 1)[-1]))
     r.nontrivial = n
     return r
+
+
+# ====================================================================== PAN-9 progress of the insertion loop
+
+
+def pan9(ctx):
+    """Every output element processed by SubRule::insert either edits the word or advances the cursor. An element that does
+    neither leaves (word, cursor) unchanged, and the insertion loop of `transform` finds the same insertion point again: it
+    never terminates."""
+    r = RuleResult("PAN-9", "SubRule::insert: every path through the loop over the output elements edits the word or advances the cursor (otherwise the insertion loop re-finds the same point forever)", floor=1)
+    lib = ctx.lib
+    b = ctx.fn(lib, "asca::subrule::SubRule::insert")
+    cfg = b.cfg
+    # the loop over the output states: header = the block calling Iterator::next on slice::Iter<Item>
+    heads = [h for h, bl in cfg.loops if b.blocks[h]["t"]["k"] == "call" and "slice::iter::Iter<'_, asca::parser::Item>" in (b.blocks[h]["t"]["callee"].get("inst") or "")
+             and (callee_path(b.blocks[h]["t"]) or "").endswith("Iterator>::next")]
+    if len(heads) != 1:
+        raise AnchorMissing("SubRule::insert: loop over the output elements not found (%d candidates)" % len(heads))
+    h = heads[0]
+    body = dict(cfg.loops)[h]
+    PROGRESS = ("VecDeque::insert", "VecDeque::push_back", "VecDeque::push_front", "Vec::insert", "Vec::push", "SegPos::increment",
+                "Syllable::insert_segment", "Word::apply_seg_mods", "Syllable::apply_syll_mods")
+    prog = set()
+    for bi, t in b.calls():
+        cp = callee_path(t) or ""
+        if bi in body and cp.endswith(PROGRESS):
+            prog.add(bi)
+    # direct cursor arithmetic: `pos.syll_index += n` / `pos.seg_index += n` on the cursor local
+    for bi in body:
+        for s in b.blocks[bi]["s"]:
+            if s["k"] == "assign" and s["lhs"]["p"] and any(isinstance(p, dict) and p.get("n") in ("syll_index", "seg_index") for p in s["lhs"]["p"]) \
+                    and (b.local_name(s["lhs"]["l"]) or "") == "pos":
+                prog.add(bi)
+    # first block of an iteration: the `Some` successor of the discriminant switch after next()
+    nxt = b.blocks[h]["t"].get("t")
+    sw = b.blocks[nxt]["t"] if nxt is not None else {}
+    some = dict((v, tg) for v, tg in sw.get("vals", [])).get(1) if sw.get("k") == "switch" else None
+    if some is None:
+        some = sw.get("otherwise")
+    if some is None:
+        raise AnchorMissing("SubRule::insert: `Some(state)` edge of the output loop not found")
+    err_exits = {i for i, t in b.calls() if "from_residual" in (callee_path(t) or "")}
+    # blocks of an iteration reachable without passing a progress site
+    reach = cfg.reachable_from(some, avoid=prog | err_exits)
+    spins = h in reach and some not in prog
+    # which statement sends the iteration back without progress: report the `continue`-like edge closest to the header
+    loc = None
+    if spins:
+        # walk back from the loop header through non-progress blocks to the first block that carries a source line of this file
+        seen, st = set(), [x for x in reach if h in cfg.succ[x]]
+        cands = []
+        while st:
+            x = st.pop()
+            if x in seen:
+                continue
+            seen.add(x)
+            blk = b.blocks[x]
+            locs = [l for l in ([s_.get("loc") for s_ in blk["s"]] + [blk["t"].get("loc")]) if l and l.startswith(b.file)]
+            if locs and not blk["t"].get("exp"):
+                cands.append(locs[-1])
+                continue
+            st.extend(p for p in cfg.pred[x] if p in reach)
+        if cands:
+            loc = sorted(cands, key=lambda l: int(l.split(":")[1]))[0]
+    r.inst("every iteration over an output element passes an edit of the word or an advance of the cursor (%d progress sites)" % len(prog),
+           ":".join((loc or b.loc).split(":")[:2]), "ok" if not spins else "report")
+    if spins:
+        r.report("PAN-9|insert|no-progress-iteration", ":".join((loc or b.loc).split(":")[:2]), b.path,
+                 "an output element can be processed without editing the word or advancing the cursor (e.g. the `continue` for `$` at a syllable start): the insertion loop then finds the same insertion point again and never returns")
+    return r
